@@ -112,7 +112,7 @@ func (m *model) ruleOwnership(s *report.Sink) {
 					switch {
 					case inLoop:
 						s.OK("S1", key, m.ipos(a.in), "inside the scheduler loop goroutine")
-					case top(fn) == m.fnWorker && fn == m.fnWorker && a.f == m.sjInvalid && !a.write && m.key(a.base) == wJobKey:
+					case m.rootSite(a.in).Parent() == m.fnWorker && a.f == m.sjInvalid && !a.write && m.key(a.base) == wJobKey:
 						s.OK("S1", key, m.ipos(a.in), "worker's read of invalid on the job it just received from the ready channel (ordered after the loop's writes by that send)")
 					default:
 						s.Bad("S1", key, m.ipos(a.in), fmt.Sprintf("loop-owned field ScheduledJob.%s accessed (%s) in %s, outside the scheduler loop goroutine", lname, a.kind, name))
@@ -144,7 +144,7 @@ func (m *model) ruleOwnership(s *report.Sink) {
 				switch {
 				case inLoop:
 					s.OK("S3", key, m.ipos(a.in), "inside the loop goroutine")
-				case fn == m.fnWait && !a.write && m.afterFinishRecv(a.in):
+				case m.rootSite(a.in).Parent() == m.fnWait && !a.write && m.afterFinishRecv(m.rootSite(a.in)):
 					s.OK("S3", key, m.ipos(a.in), "read in Wait after receiving from the finish channel (closed by the loop on exit)")
 				default:
 					s.Bad("S3", key, m.ipos(a.in), "Scheduler.err accessed outside the loop and not after the finish-channel receive in Wait")
